@@ -428,6 +428,8 @@ class PDFPageInterpreter:
         self.ncs: Optional[PDFColorSpace] = None
         if self.csmap:
             self.scs = self.ncs = next(iter(self.csmap.values()))
+        # inline images are numbered within the content being rendered
+        self.inline_image_count = 0
 
     def push(self, obj: PDFStackT) -> None:
         self.argstack.append(obj)
@@ -1157,7 +1159,9 @@ class PDFPageInterpreter:
     def do_EI(self, obj: PDFStackT) -> None:
         """End inline image object"""
         if isinstance(obj, PDFStream) and "W" in obj and "H" in obj:
-            iobjid = str(id(obj))
+            # a reproducible name (memory addresses differ from run to run)
+            self.inline_image_count += 1
+            iobjid = "inline%d" % self.inline_image_count
             self.device.begin_figure(iobjid, (0, 0, 1, 1), MATRIX_IDENTITY)
             self.device.render_image(iobjid, obj)
             self.device.end_figure(iobjid)
